@@ -81,6 +81,12 @@ def field_bits(t: Value) -> Optional[Tuple[Value, int]]:
                 base, m, sh = r
                 return base, m & (b.v << sh), sh
             return None
+        if isinstance(x, App) and x.op in ("//", "%") and len(x.args) == 2 and isinstance(x.args[1], C) \
+                and isinstance(x.args[1].v, int) and x.args[1].v > 0 and x.args[1].v & (x.args[1].v - 1) == 0:
+            k = x.args[1].v.bit_length() - 1  # division / remainder by a power of two = shift / mask
+            if x.op == "//":
+                return rec(App(">>", (x.args[0], C(k)), "int"))
+            return rec(App("&", (x.args[0], C(x.args[1].v - 1)), "int"))
         if isinstance(x, App) and x.op == ">>" and isinstance(x.args[1], C):
             r = rec(x.args[0])
             if r is None:
